@@ -48,3 +48,161 @@ def hash_to_field(msg, count, dst, m, hash_name="sha256", p=P):
             e.append(int.from_bytes(u[off:off + L_FIELD], "big") % p)
         out.append(tuple(e))
     return out
+
+
+# ---- 4.1 sgn0 -------------------------------------------------------------------------------
+def sgn0(x):
+    """x is an int (m = 1) or a tuple of ints: parity of the first non-zero coordinate."""
+    if isinstance(x, int):
+        return (x % P) % 2
+    for c in x:
+        if c % P:
+            return (c % P) % 2
+    return 0
+
+
+# ---- 6.6.2 simplified SWU, straight-line version of the RFC ------------------------------------
+class Suite:
+    """One of the two suites: the model field, the isogenous curve E': y^2 = x^3 + A x + B, Z,
+    the isogeny E' -> E as four polynomials (low degree first), h_eff and the group tag."""
+
+    def __init__(self, g, F, A, B, Z, xnum, xden, ynum, yden, heff, is_square, sqrt):
+        self.g, self.F, self.A, self.B, self.Z = g, F, A, B, Z
+        self.xnum, self.xden, self.ynum, self.yden = xnum, xden, ynum, yden
+        self.heff, self.is_square, self.sqrt = heff, is_square, sqrt
+
+    def gx(self, x):
+        F = self.F
+        return F.add(F.add(F.mul(F.mul(x, x), x), F.mul(self.A, x)), self.B)
+
+    def sswu(self, u):
+        """Returns ((x, y) on E', info) with info = dict(branch='x1'|'x2', exceptional=bool)."""
+        F, A, B, Z = self.F, self.A, self.B, self.Z
+        u2 = F.mul(u, u)
+        zu2 = F.mul(Z, u2)
+        tv1 = F.inv0(F.add(F.mul(zu2, zu2), zu2))
+        exceptional = F.is_zero(tv1)
+        x1 = F.mul(F.div(F.neg(B), A), F.add(F.one, tv1))
+        if exceptional:
+            x1 = F.div(B, F.mul(Z, A))
+        gx1 = self.gx(x1)
+        x2 = F.mul(zu2, x1)
+        gx2 = self.gx(x2)
+        if self.is_square(gx1):
+            x, y, branch = x1, self.sqrt(gx1), "x1"
+        else:
+            x, y, branch = x2, self.sqrt(gx2), "x2"
+        if y is None:
+            raise AssertionError("SSWU: neither gx1 nor gx2 is a square (impossible)")
+        if sgn0(u) != sgn0(y):
+            y = F.neg(y)
+        return (x, y), {"branch": branch, "exceptional": exceptional}
+
+    def _poly(self, cs, x):
+        F = self.F
+        acc = F.zero
+        for c in reversed(cs):
+            acc = F.add(F.mul(acc, x), c)
+        return acc
+
+    def iso_map(self, pt):
+        """Affine rational map; a vanishing denominator maps to the identity (RFC 9380 E.2/E.3)."""
+        if pt is None:
+            return None
+        F = self.F
+        x, y = pt
+        xd, yd = self._poly(self.xden, x), self._poly(self.yden, x)
+        if F.is_zero(xd) or F.is_zero(yd):
+            return None
+        X = F.div(self._poly(self.xnum, x), xd)
+        Y = F.mul(y, F.div(self._poly(self.ynum, x), yd))
+        return (X, Y)
+
+    def map_to_curve(self, u):
+        pt, info = self.sswu(u)
+        return self.iso_map(pt), info
+
+    def on_iso_curve(self, pt):
+        x, y = pt
+        return self.F.eq(self.F.mul(y, y), self.gx(x))
+
+
+def _suites():
+    from . import isoconst as k
+    from .curves import BLS
+    from .params import BLS_HEFF1, BLS_HEFF2
+    F1, F2 = BLS.F1, BLS.F2
+    el2 = lambda t: (t[0] % P, t[1] % P)  # noqa: E731
+    s1 = Suite("G1", F1, k.ISO11_A % P, k.ISO11_B % P, k.ISO11_Z % P,
+               tuple(c % P for c in k.ISO11_XNUM), tuple(c % P for c in k.ISO11_XDEN),
+               tuple(c % P for c in k.ISO11_YNUM), tuple(c % P for c in k.ISO11_YDEN),
+               BLS_HEFF1, lambda a: nt.legendre(a, P) >= 0, lambda a: nt.sqrt_mod(a, P))
+    s2 = Suite("G2", F2, el2(k.ISO3_A), el2(k.ISO3_B), el2(k.ISO3_Z),
+               tuple(map(el2, k.ISO3_XNUM)), tuple(map(el2, k.ISO3_XDEN)),
+               tuple(map(el2, k.ISO3_YNUM)), tuple(map(el2, k.ISO3_YDEN)),
+               BLS_HEFF2, BLS.fp2_is_square, BLS.fp2_sqrt)
+    return s1, s2
+
+
+_S = None
+
+
+def suite(g):
+    global _S
+    if _S is None:
+        _S = _suites()
+    return _S[0] if g == "G1" else _S[1]
+
+
+def hash_to_curve(g, msg, dst, hash_name="sha256"):
+    from .curves import BLS
+    S = suite(g)
+    m = 1 if g == "G1" else 2
+    us = hash_to_field(msg, 2, dst, m, hash_name)
+    if g == "G1":
+        us = [u[0] for u in us]
+    q0, _ = S.map_to_curve(us[0])
+    q1, _ = S.map_to_curve(us[1])
+    r = BLS.add(g, q0, q1)
+    return BLS.mul(g, r, S.heff)
+
+
+def exceptional_us(g):
+    """Non-zero u with Z^2 u^4 + Z u^2 = 0, i.e. u^2 = -1/Z (empty if -1/Z is a non-square)."""
+    S = suite(g)
+    F = S.F
+    t = F.neg(F.inv(S.Z))
+    if not S.is_square(t):
+        return []
+    r = S.sqrt(t)
+    return [r, F.neg(r)]
+
+
+# RFC 9380 appendix J.9.1 / J.10.1 (copied from the repository's tests: they anchor the MODEL)
+H2C_DST_G1 = b"QUUX-V01-CS02-with-BLS12381G1_XMD:SHA-256_SSWU_RO_"
+H2C_DST_G2 = b"QUUX-V01-CS02-with-BLS12381G2_XMD:SHA-256_SSWU_RO_"
+from .h2c_vectors import G1 as H2C_G1_VECTORS, G2 as H2C_G2_VECTORS  # noqa: E402
+
+
+def selfcheck():
+    from .curves import BLS
+    for g in ("G1", "G2"):
+        S = suite(g)
+        F = S.F
+        # the isogeny sends E' to E and is additive (checked on SSWU images)
+        us = [3, 5, 7] if g == "G1" else [(3, 1), (5, 2), (7, 11)]
+        pts = [S.sswu(u)[0] for u in us]
+        for pt in pts:
+            assert S.on_iso_curve(pt)
+            assert BLS.on_curve(g, S.iso_map(pt)), "isogeny image off curve"
+        from . import ec
+        s = ec.add(F, pts[0], pts[1], a=S.A)
+        assert S.on_iso_curve(s)
+        assert S.iso_map(s) == BLS.add(g, S.iso_map(pts[0]), S.iso_map(pts[1])), "isogeny not additive"
+    for msg, x, y in H2C_G1_VECTORS:
+        assert hash_to_curve("G1", msg, H2C_DST_G1) == (x, y), "model disagrees with RFC 9380 J.9.1"
+    for msg, x, y in H2C_G2_VECTORS:
+        assert hash_to_curve("G2", msg, H2C_DST_G2) == (x, y), "model disagrees with RFC 9380 J.10.1"
+    # G2 has no non-zero exceptional u, G1 has two
+    assert exceptional_us("G2") == [] and len(exceptional_us("G1")) == 2
+    return True
